@@ -20,6 +20,11 @@ REPO = "/repo"
 
 # (property, relative file, old text, new text, substring of the unit expected to fail)
 MUTANTS = [
+    ("C25", "unified_planning/model/delta_stn.py", "        if right_bound is not None:\n            self.add(right_event, left_event, right_bound)", "        if right_bound:\n            self.add(right_event, left_event, right_bound)", "insert_interval"),
+    ("C25", "unified_planning/model/delta_stn.py", "            self.add(left_event, right_event, -left_bound)", "            self.add(left_event, right_event, left_bound)", "insert_interval"),
+    ("C25", "unified_planning/model/delta_stn.py", "            self.add(right_event, left_event, right_bound)", "            self.add(left_event, right_event, right_bound)", "insert_interval"),
+    ("C25", "unified_planning/model/delta_stn.py", "            self._distances.setdefault(right_event, cast(T, 0))", "            self._distances[right_event] = cast(T, 0)", "insert_interval"),
+    ("C25", "unified_planning/model/delta_stn.py", "        if left_bound is None and right_bound is None:", "        if left_bound is None or right_bound is None:", "insert_interval"),
     ("C10", "unified_planning/model/problem.py", "        free_vars = self.environment.free_vars_extractor.get(\n            lower\n        ) | self.environment.free_vars_extractor.get(upper)\n", "        free_vars = self.environment.free_vars_extractor.get(upper)\n", "update_action_duration"),
     ("C10", "unified_planning/model/problem.py", "        ops = self.operators_extractor.get(lower) | self.operators_extractor.get(upper)\n", "        ops = self.operators_extractor.get(lower)\n", "update_action_duration"),
     ("C10", "unified_planning/model/problem.py", "        if lower != upper:\n            self.kind.set_time(\"DURATION_INEQUALITIES\")", "        if lower == upper:\n            self.kind.set_time(\"DURATION_INEQUALITIES\")", "update_action_duration"),
